@@ -174,6 +174,15 @@ func headerCatalogue(pkg string) (*spec.File, []*hdrDecl) {
 	add("override/optional->required", []spec.Header{{Name: "X-Tok", Type: "string", Required: false}}, []spec.Header{{Name: "X-Tok", Type: "boolean", Required: true}})
 	// several required headers
 	add("multi/three-required", []spec.Header{{Name: "X-One", Type: "integer", Required: true}, {Name: "X-Two", Type: "string", Format: "email", Required: true}}, []spec.Header{{Name: "X-Three", Type: "boolean", Required: true}, {Name: "X-Opt", Type: "string"}})
+	// declaration order: optional headers before/between required ones, with and without an override
+	opt := func(n string) spec.Header { return spec.Header{Name: n, Type: "string"} }
+	reqd := func(n, t, fm string) spec.Header { return spec.Header{Name: n, Type: t, Format: fm, Required: true} }
+	add("order/optional-first/override-later-required", []spec.Header{opt("X-Trace"), reqd("X-Tenant", "integer", ""), reqd("X-Tok", "integer", "")}, []spec.Header{reqd("X-Tok", "string", "uuid")})
+	add("order/two-optional-first/override-last-required", []spec.Header{opt("X-Trace"), opt("X-Span"), reqd("X-Tok", "integer", "")}, []spec.Header{reqd("X-Tok", "string", "uuid")})
+	add("order/optional-between/override-first-required", []spec.Header{reqd("X-Tok", "integer", ""), opt("X-Trace"), reqd("X-Tenant", "boolean", "")}, []spec.Header{reqd("X-Tok", "string", "email")})
+	add("order/optional-between/no-override", []spec.Header{reqd("X-One", "integer", ""), opt("X-Trace"), reqd("X-Two", "boolean", "")}, []spec.Header{opt("X-Idem"), reqd("X-Three", "string", "date")})
+	add("order/optional-first/override-optional", []spec.Header{opt("X-Trace"), reqd("X-Tenant", "integer", ""), reqd("X-Tok", "integer", "")}, []spec.Header{{Name: "X-Trace", Type: "boolean", Required: true}})
+	add("order/override-two", []spec.Header{opt("X-Trace"), reqd("X-A", "integer", ""), reqd("X-B", "integer", ""), reqd("X-C", "integer", "")}, []spec.Header{reqd("X-C", "boolean", ""), reqd("X-A", "string", "uuid")})
 	return f, decls
 }
 
@@ -380,7 +389,7 @@ func c09decl(c *Ctx, d *hdrDecl, ch, node *lab.Child, gs, ts *srv, protoText str
 			resp, err := rawHTTP("POST", base, "/hdr"+d.Path, hdr, body)
 			c.R.Eval(1)
 			if err != nil {
-				c.R.Inconclusive(caseID, "http:"+err.Error())
+				transportFailure(c, child, nil, caseID, err, map[string]any{"proto": protoText, "declaration": d.Label, "headers_sent": hdr})
 				continue
 			}
 			evs, serr := syncEvents(child)
